@@ -1588,13 +1588,19 @@ class Engine:
         c = self.truthy(st, cv)
         outs = self.flush_raises(st)
         res = list(outs)
-        if self.contract is not None and self.contract.merge_ifs and not is_true(c) and not is_false(c):
+        if self.contract is not None and self.contract.merge_ifs and not is_true(c) and not is_false(c) \
+                and getattr(self, "stmt_labels", {}).get(id(s)) not in self.contract.merge_except:
             L = len(st.pc)
             sa, sb = st.fork(), st.fork()
             sa.assume(c)
             sb.assume(Not(c))
             self.apply_narrowing(sa, s.test, True)
             self.apply_narrowing(sb, s.test, False)
+            fa, fb = self.feasible(sa), self.feasible(sb)
+            if not fa or not fb:
+                only = sb if not fa else sa
+                body = s.orelse if not fa else s.body
+                return res + (self.exec_block(body, only) if body else [Outcome("normal", only)])
             oa = self.exec_block(s.body, sa) if s.body else [Outcome("normal", sa)]
             ob = self.exec_block(s.orelse, sb) if s.orelse else [Outcome("normal", sb)]
             na = [o for o in oa if o.kind == "normal"]
@@ -1656,6 +1662,7 @@ class Engine:
         m.narrow = {k: v for k, v in sa.narrow.items() if sb.narrow.get(k) == v}
         m.defs_assumed = sa.defs_assumed & sb.defs_assumed
         m.havocked_fields = sa.havocked_fields | sb.havocked_fields
+        m.rebound = sa.rebound | sb.rebound
         m.trace = list(sa.trace)
         return m
 
